@@ -131,6 +131,9 @@ def install(it):
         @B('check')
         def _check(it, a, kw):
             name, cond = a[0], a[1]
+            tag = a[2] if len(a) > 2 else kw.get('props')
+            if tag:
+                name = name + '@' + tag.replace(' ', ',')
             t = ops.truthy(it, cond)
             it.path.check(it.ob_prefix + name, t)
 
@@ -220,6 +223,10 @@ def install(it):
             if isinstance(x, (bool, SBool)) and isinstance(y, (bool, SBool)):
                 return mk_bool(z3.If(c.e, zbool(x), zbool(y)))
             return mk_int(z3.If(c.e, zint(x), zint(y)))
+
+        @B('neg')
+        def _neg(it, a, kw):
+            return ops.bool_not(ops.truthy(it, a[0]))
 
         @B('conj')
         def _conj(it, a, kw):
